@@ -259,7 +259,7 @@ def build_posterior(inp):
     return post, regions, funcs, meta
 
 
-stats = dict(outside_nonzero=0)      # evaluation points outside the optimisation bounds with a non-zero expected density (non-vacuity of that case)
+stats = dict(outside_nonzero=0, history_changed=0)      # evaluation points outside the optimisation bounds with a non-zero expected density (non-vacuity of that case)
 
 
 def check_posterior(inp):
@@ -272,7 +272,7 @@ def check_posterior(inp):
         return _fail('posterior-setup', 'could not construct the posterior: %s: %s' % (type(e).__name__, str(e)[:120]), inp)
     rs = np.random.RandomState(5000 + inp.get('seed', 0))
     which = inp.get('function', 'posterior')
-    if which in ('posterior', '_pdf_unnorm_single_point', '_sum_over_indicators', '_sum_over_regions', '_sum_over_regions_indicators'):
+    if which in ('posterior', 'history', '_pdf_unnorm_single_point', '_sum_over_indicators', '_sum_over_regions', '_sum_over_regions_indicators'):
         pts = [np.asarray(p, float) for p in inp['points']] if 'points' in inp else [rs.uniform(-1.9, 1.9, D) for _ in range(inp.get('n_points', 16))]
         for th in pts:
             ins = [member(R, c, lim, th)[0] for (R, c, lim) in meta]
@@ -299,6 +299,10 @@ def check_posterior(inp):
             gotb, err = _call(post.pdf_unnorm_batched, th[None, :])
             if err or abs(float(np.asarray(gotb).ravel()[0]) - exp) > 1e-9 * max(1.0, abs(exp)):
                 return _fail('density-batched', 'pdf_unnorm_batched([%r]) = %r, expected prior x count = %r' % (th.tolist(), err or gotb, exp), inp)
+    if which in ('posterior', 'history', '_pdf_unnorm_single_point', 'reset_eps_cutoff'):
+        f = check_history(inp, post, meta, funcs, rs)
+        if f:
+            return f
     if which in ('posterior', 'RomcPosterior.sample', '_worker_compute_weight'):
         n2 = inp.get('n2', 4)
         if which == '_worker_compute_weight':       # the per-region worker alone, on draws taken from the regions directly
@@ -330,6 +334,61 @@ def check_posterior(inp):
     return None
 
 
+def check_history(inp, post, meta, funcs, rs):
+    """history on ONE posterior object: evaluate the unnormalised density (and pdf, dims <= 2 with bounds) at some points, reset_eps_cutoff(new),
+    evaluate at the bit-identical points again; the second answers must be those of a FRESH object constructed with the new cut-off
+    and must equal prior x count under the NEW cut-off (independent oracle)"""
+    D, eps = inp['D'], inp.get('eps', 0.8)
+    P = np.array([rs.uniform(-1.9, 1.9, D) for _ in range(inp.get('n_history', 10))])
+    first, err = _call(post.pdf_unnorm_batched, P.copy())
+    if err:
+        return _fail('F6-float-of-1d-array' if err.startswith('TypeError') else 'density-raise', 'pdf_unnorm_batched raised %s' % err, inp)
+    want_pdf = post.left_lim is not None and (D == 1 or (D == 2 and inp.get('pdf_history_2d', False)))
+    if want_pdf:
+        _, err = _call(post.pdf, P.copy())
+        if err:
+            return _fail('pdf-raise', 'pdf raised %s' % err, inp)
+    for new_eps in inp.get('new_eps', [0.45 * eps, 1.7 * eps]):
+        _, err = _call(post.reset_eps_cutoff, new_eps)
+        if err:
+            return _fail('reset-raise', 'reset_eps_cutoff raised %s' % err, inp)
+        if post.eps_cutoff != new_eps or post.partition is not None:
+            return _fail('reset-state', 'after reset_eps_cutoff(%r): eps_cutoff = %r, partition = %r' % (new_eps, post.eps_cutoff, post.partition), inp)
+        again, err = _call(post.pdf_unnorm_batched, P.copy())
+        if err:
+            return _fail('density-raise', 'pdf_unnorm_batched after reset_eps_cutoff raised %s' % err, inp)
+        fresh = build_posterior(dict(inp, eps=new_eps))[0]
+        ref, err = _call(fresh.pdf_unnorm_batched, P.copy())
+        if err:
+            return _fail('density-raise', 'pdf_unnorm_batched on a fresh object raised %s' % err, inp)
+        for k in range(len(P)):
+            th = P[k]
+            ins = [member(R, c, lim, th)[0] for (R, c, lim) in meta]
+            dist = [f(th) for f in funcs]
+            if any(abs(d - new_eps) < TOL or abs(d - eps) < TOL for d in dist) or any(member(R, c, lim, th, TOL)[0] != member(R, c, lim, th, -TOL)[0] for (R, c, lim) in meta):
+                continue
+            cnt = sum(1 for a, d in zip(ins, dist) if d <= new_eps and (a or not inp.get('surrogate_used')))
+            exp = prior_density(D, th) * cnt
+            stats['history_changed'] += 1 if abs(exp - float(first[k])) > 1e-12 else 0
+            for nm, got in (('the fresh object', float(ref[k])), ('prior x count under the new cut-off', exp)):
+                if abs(float(again[k]) - got) > 1e-9 * max(1.0, abs(got)):
+                    return _fail('history-density', 'after reset_eps_cutoff(%r) the unnormalised density at the previously evaluated point %r is %r; %s gives %r '
+                                 '(value before the reset, cut-off %r: %r)' % (new_eps, th.tolist(), float(again[k]), nm, got, eps, float(first[k])), inp)
+        if want_pdf:
+            a, err = _call(post.pdf, P.copy())
+            b, err2 = _call(fresh.pdf, P.copy())
+            if err or err2:
+                return _fail('pdf-raise', 'pdf after reset_eps_cutoff raised %s' % (err or err2), inp)
+            a, b = np.asarray(a, float), np.asarray(b, float)
+            ok = np.isfinite(b)
+            if np.any(np.abs(a[ok] - b[ok]) > 1e-9 * np.maximum(1.0, np.abs(b[ok]))) or np.any(np.isfinite(a) != ok):
+                k = int(np.argmax(np.where(ok, np.abs(a - b), 0)))
+                return _fail('history-pdf', 'after reset_eps_cutoff(%r) pdf(%r) = %r, a fresh object with that cut-off gives %r' % (new_eps, P[k].tolist(), a[k], b[k]), inp)
+        eps = new_eps
+    post.reset_eps_cutoff(inp.get('eps', 0.8))          # leave the object at the cut-off of the case for the checks that follow
+    return None
+
+
 def run_posterior(tier, seed, first=True):
     seeds = 2 if tier == 'quick' else 6
     cases = nontriv = 0
@@ -337,7 +396,7 @@ def run_posterior(tier, seed, first=True):
     for D in (1, 2, 3):
         for sd in range(seed, seed + seeds):
             for surr, bounds in ((False, 'tight'), (True, 'tight'), (False, 'none'), (True, 'wide')):
-                inp = dict(function='posterior', D=D, seed=sd, N=3, surrogate_used=surr, eps=0.8, n2=3, bounds=bounds)
+                inp = dict(function='posterior', D=D, seed=sd, N=3, surrogate_used=surr, eps=0.8, n2=3, bounds=bounds, pdf_history_2d=(tier != 'quick'))
                 cases += 1
                 nontriv += 1 if D > 1 else 0
                 f = check_posterior(inp)
@@ -349,10 +408,13 @@ def run_posterior(tier, seed, first=True):
                 break
         if fails and first:
             break
+    if not fails and stats['history_changed'] == 0:
+        fails.append(_fail('harness-vacuous', 'no previously evaluated point changed its density after reset_eps_cutoff', dict(function='posterior')))
     if not fails and stats['outside_nonzero'] == 0:
         fails.append(_fail('harness-vacuous', 'no evaluation point outside the optimisation bounds had a non-zero expected density', dict(function='posterior')))
     return dict(name='posterior', bound='dims 1-3, %d seeds x {actual, surrogate} counting mode x optimisation bounds {tight [-1,1]^D, none, wide}, 3 regions, '
-                                         '16 evaluation points in [-1.9,1.9]^D (%d outside the bounds with non-zero density), 3 draws per region' % (seeds, stats['outside_nonzero']),
+                                         '16 evaluation points in [-1.9,1.9]^D (%d outside the bounds with non-zero density), 3 draws per region; history on one object: 10 points, '
+                                         'reset_eps_cutoff to 0.45x and then 1.7x, same points again vs a fresh object and the oracle (%d changed values), pdf for D = 1' % (seeds, stats['outside_nonzero'], stats['history_changed']),
                 rule='non-trivial = dimension > 1', cases=cases, nontrivial=nontriv, failures=fails)
 
 
